@@ -69,7 +69,8 @@ def run_case(case):
     x = xyz()
     desc = case["desc"]
     spec = {"vars": desc["vars"], "sizes": desc["sizes"], "ret": desc["ret"],
-            "log": None, "str_var": desc.get("str_var")}
+            "log": None, "str_var": desc.get("str_var"),
+            "dict_plain": desc.get("dict_plain")}
     fn = labelled.make_fn(spec)
     models.LOG.clear()
     entry = case["entry"]
@@ -319,6 +320,7 @@ def runner_desc(draw, to_df=False, allow_xobj=True):
             "dims_spelling": draw(st.sampled_from(spellings)),
             "dim_coords": dim_coords, "constants": consts,
             "dim_const_as": dim_const_as,
+            "dict_plain": draw(st.booleans()),
             "resources": resources, "attrs": attrs}
 
 
@@ -374,12 +376,17 @@ def shifted_fn(_xv=None, **kw):
     models.LOG.append(dict(kw))
     labels = [step * int(kw["n"]) + i for i in range(L)]
     vals = np.array([shifted_value(kw, f) for f in labels])
+    # non-index coordinates that depend on the arguments too: a scalar tag
+    # and a quantity along the internal dimension
+    extra_c = {"tag": shifted_value(kw, -1),
+               "mom": (("freq",), [shifted_value(kw, f) + 0.5
+                                   for f in labels])}
     if ret == "dataarray":
-        return xr.DataArray(vals, dims=("freq",), coords={"freq": labels},
-                            name="amp")
+        return xr.DataArray(vals, dims=("freq",),
+                            coords={"freq": labels, **extra_c}, name="amp")
     return xr.Dataset({"amp": (("freq",), vals),
                        "amp2": (("freq",), vals * 2)},
-                      coords={"freq": labels})
+                      coords={"freq": labels, **extra_c})
 
 
 def shifted_value(kw, f):
@@ -429,6 +436,25 @@ def run_shifted(case):
                                 f"{nm} at n={n_}, m={m_!r}, freq={f} is "
                                 f"{got} but the function returned no such "
                                 f"label for n={n_}")
+            # the argument-dependent coordinates of this very point
+            kw_ = {"n": n_, "m": m_}
+            def at(name, **lab):
+                # (a coordinate that does not vary along a swept dimension
+                # is legitimately kept without that dimension)
+                v = out[name]
+                return float(v.sel({d: l for d, l in lab.items()
+                                    if d in v.dims}).values)
+            gtag = at("tag", n=n_, m=m_)
+            require(gtag == shifted_value(kw_, -1), "coordinate-at-label",
+                    f"coordinate 'tag' at n={n_}, m={m_!r} is {gtag}; the "
+                    f"function returned {shifted_value(kw_, -1)} there")
+            for f in sorted(own):
+                gm = at("mom", n=n_, m=m_, freq=f)
+                require(gm == shifted_value(kw_, f) + 0.5,
+                        "coordinate-at-label",
+                        f"coordinate 'mom' at n={n_}, m={m_!r}, freq={f} is "
+                        f"{gm}; the function returned "
+                        f"{shifted_value(kw_, f) + 0.5}")
     return {"nontrivial": len(ns) >= 2 and step > 0,
             "classes": ["argument-dependent-internal-labels",
                         f"entry={case['entry']}", f"ret={ret}"]}
